@@ -3,7 +3,8 @@
 The property needs an independent SQL oracle over query x data, which is not a static object.
 Decided here is one clause of its statement that is visible in the shape of the code: aggregates skip
 NULLs. (R1) reducers over raw slots read the validity bitmap; (R2) the COUNT(DISTINCT) state never
-receives NULL; (R3) the SUM combinator skips a NULL operand on the per-value path (hash/sort agg).
+receives NULL; (R3) the SUM combinator skips a NULL operand on the per-value path (hash/sort agg); (R4) boolean kernel
+results carry `false` under NULL slots, because WHERE and JOIN ON read the raw bits (shared with C14-R6).
 The NULL-join-key clause is decided under C11-R1. Everything else of C02 is not decided."""
 import re
 
@@ -21,8 +22,8 @@ def run(ctx):
     ctx.trusted += ['rustc MIR facts']
     ctx.assumptions += ['only the "aggregates skip NULLs" clause of C02 is decided; join NULL keys: C11-R1']
     R1 = 'C02-R1'
-    ctx.rule(R1, 'every function group under array:: that iterates raw slots (raw_iter) also consults validity '
-                 '(get_valid_bitmap / nonnull_iter / builds its result with from_data(.., valid))')
+    ctx.rule(R1, 'every function group under array:: that iterates raw slots (raw_iter) rebuilds an array together with a validity '
+                 'bitmap (from_data(.., valid)); reducers must not read raw slots at all')
     by = {}
     for c in prog.calls_matching(re.compile(r'::raw_iter$')):
         if c.body.name.startswith('array::') or c.body.name.startswith('<array::'):
@@ -32,7 +33,9 @@ def run(ctx):
         grp = prog.group(root)
         for g in grp:
             ctx.functions_analysed.add(g.name)
-        valid = [c for g in grp for c in g.calls if re.search(r'get_valid_bitmap|nonnull_iter|ArrayFromDataExt::from_data$|::from_data$', c.name or '')]
+        valid = [c for g in grp for c in g.calls if re.search(r'ArrayFromDataExt::from_data$|::from_data$', c.name or '')]
+        # raw slots may only feed a kernel that rebuilds an array together with a validity bitmap (from_data(.., valid));
+        # a reducer (no array result) must iterate valid slots only, whatever else it consults
         ok = bool(valid)
         fn = root.rsplit('::', 1)[-1]
         ctx.ob(R1, f'{short(root)}', ok, f'{root}: {len(cs)} raw_iter call(s), validity consulted via '
@@ -62,6 +65,7 @@ def run(ctx):
                    what=f'COUNT(DISTINCT x) counts NULL as a value ({fn} inserts every value into the distinct set)')
     ctx.floor(R2, n, 2, 'insertions into the distinct-value set')
 
+    run_r4(ctx, prog)   # three-valued logic in WHERE/ON: a NULL predicate must not read as TRUE (same rule as C14-R6)
     R3 = 'C02-R3'
     ctx.rule(R3, 'SUM on the per-value path (hash/sort aggregation): the combinator applied to (state, value) must skip a NULL '
                  'value: either agg_append tests `value` for NULL before combining, or the combinator tests both operands')
@@ -98,6 +102,11 @@ def run(ctx):
                        f'Sum arm (block {tgt}): combinators {desc}', [site(b, c.bb) for c in combs],
                        what='SUM in hash/sort aggregation does not skip NULL inputs: state + NULL = NULL, so a group containing '
                             'a NULL sums to NULL')
+
+
+def run_r4(ctx, prog):
+    from rules.c14 import clear_null_rule
+    clear_null_rule(ctx, prog, 'C02-R4')
 
 
 def short(n):
